@@ -52,7 +52,8 @@ class ItemHistoryEngine(Engine):
 
     def gen(self, g, prop, tier):
         style = g.weighted('style', [('ifs', 6), ('groups', 2), ('general', 1)])
-        proj = BG.gen_project(g, tier, style=style)
+        # project sizes do not grow with the tier (see plan.py)
+        proj = BG.gen_project(g, 'quick', style=style)
         plain = g.flip('plain', 3, 4)
         for P in proj['procs'].values():
             P['external'] = None
@@ -322,8 +323,25 @@ class ItemHistoryEngine(Engine):
             f.add('mutual-recursion')
         if any(m.get('muses') for m in proj['mods']):
             f.add('module-level-import')
-        if any(Q.get('calls_iface') for q, Q in proj['procs'].items() if q in reach):
+        # reachability that ignores the pruning by config lists (transformations can re-open pruned branches)
+        raw = set()
+        todo = [q for q in proj['procs'] if any(BG.matches(BG.item_name(proj, q), [sd]) for sd in cfg['seeds'])]
+        while todo:
+            q = todo.pop()
+            if q in raw:
+                continue
+            raw.add(q)
+            todo += [c['to'] for c in proj['procs'][q]['calls']]
+        if any(Q.get('calls_iface') for q, Q in proj['procs'].items() if q in reach or q in raw):
             f.add('generic-interface-call')
+        # ModuleWrap moves the config entry of a wrapped free subroutine to '<sub>_mod#<sub>' while callers without
+        # import keep resolving to the unwrapped '#<sub>': its disable/block/ignore/expand settings are lost
+        if 'ModuleWrap' in scenario['steps']:
+            for k, rc in cfg['routines'].items():
+                q = k.split('#')[-1]
+                if q in proj['procs'] and proj['procs'][q]['mod'] is None and (q in reach or q in raw) and \
+                        (any(key in rc for key in ('disable', 'block', 'ignore')) or rc.get('expand') is False):
+                    f.add('wrapped-free-subroutine-has-item-config')
         if len(drivers & reach) > 1 or any(v.get('role') == 'driver' for k, v in cfg['routines'].items()
                                            if k.split('#')[-1] not in [s.split('#')[-1] for s in cfg['seeds']]):
             f.add('driver-below-seed')
@@ -468,7 +486,10 @@ class ItemHistoryEngine(Engine):
                     for k in scenario['rem_kernels']:
                         if k in base and k not in [x.split('#')[-1] for x in (*it.block, *it.disable)]:
                             bad('removed-kernel-still-called', f'{it.name} still calls the removed kernel {k!r}')
-                if any(d.startswith('Duplicate') for d in done) and 'Remove' not in done:
+                if any(d.startswith('Duplicate') for d in done) and 'Remove' not in done and \
+                        '_dupl' not in it.local_name.lower():
+                    # (a routine that is itself a duplicate created by this step is a copy of its original at
+                    # the time of copying; whether the copy calls further duplicates is not stated anywhere)
                     for k in scenario['dup_kernels']:
                         if k in base and f'{k}_dupl' not in base and \
                                 k not in [x.split('#')[-1] for x in (*it.block, *it.disable)]:
